@@ -558,8 +558,11 @@ class ArrayWeighting(Weighting):
             return other.equiv(self)
         elif isinstance(other, ConstWeighting):
             return np.array_equiv(self.array, other.const)
-        else:
+        elif isinstance(other, ArrayWeighting):
             return np.array_equal(self.array, other.array)
+        else:
+            # Custom inner product, norm or dist
+            return False
 
     @property
     def repr_part(self):
